@@ -158,12 +158,17 @@ def audit_sources():
     return problems
 
 def props_theorems(prop):
-    txt = strip_coq_comments(open(os.path.join(COQ, 'theories', 'Props', prop + '.v')).read())
+    path = os.path.join(COQ, 'theories', 'Props', prop + '.v')
+    if not os.path.exists(path):
+        return []
+    txt = strip_coq_comments(open(path).read())
     return re.findall(r'^\s*(?:Theorem|Lemma|Corollary|Example)\s+(\w+)', txt, re.M)
 
 def audit_assumptions(prop):
     """compile a scratch file that prints the assumptions of every theorem of Props/<prop>.v"""
     names = props_theorems(prop)
+    if not names:
+        return [], {}, True
     os.makedirs(WORK, exist_ok=True)
     path = os.path.join(WORK, 'audit_%s.v' % prop)
     with open(path, 'w') as f:
@@ -286,7 +291,7 @@ class Verdict:
             if kf.get('status', 'open') == 'open' and cls and kf.get('class') == cls:
                 if kf['class'] not in [k['class'] for k in self.known]:
                     self.known.append(kf)
-                return
+                return 'known'
         d = os.path.join(VERIF, 'replays', self.prop)
         os.makedirs(d, exist_ok=True)
         replay = dict(replay)
@@ -297,6 +302,10 @@ class Verdict:
         path = os.path.join(d, h + '.json')
         open(path, 'w').write(blob + '\n')
         self.violations.append((os.path.relpath(path, VERIF), no_failing_input, what))
+        return 'new'
+
+    def is_known(self, cls):
+        return any(kf.get('status', 'open') == 'open' and kf.get('class') == cls for kf in self.known_findings)
 
     def finish(self, level='proof', checker_cmd='', trusted_base=None, assumptions=None, extra=None):
         wall = time.time() - self.t0
